@@ -12,6 +12,50 @@ import common
 PROP = "C13"
 LEAN_PROPS = "PpciVerif/Props/C13.lean"
 LEAN_TARGETS = ["PpciVerif.Props.C13", "Drivers.C13"]
+LEVEL = "proof"
+LEVEL_TEXT = (
+    "Lean theorems about a hand model of Linker.do_relaxations / _apply_relaxation_holes and the shrinkable rvc relocations, for ALL "
+    "objects and hole lists: phi(o) = o - sum{size h | h.offset < o} is monotone and never increases a distance; count_holes (with its "
+    "break) equals that sum on every sorted list; after hole punching every section's data is the old data without the hole bytes "
+    "(new[phi o] = old[o], length shrinks by the hole sizes), every symbol and relocation offset is phi of the old one with no other "
+    "field changed, image section addresses drop by the bytes removed in front of them and consecutive sections still do not overlap, "
+    "a symbol's address is its section's new address + phi(old offset); the registered holes are ascending and disjoint whenever the "
+    "shrinkable relocation sites do not overlap; the 2 bytes left by do_shrink + bc_imm11 decode with the independent Spec.RV32 "
+    "decoder to c.j / c.jal with exactly the offset S'-P', the unrelaxed word to jal rd with offset S-P; a shrunk jump inside one "
+    "section stays in reach. PARTIAL: 'stays in reach' for two different sections and 'aligned sections stay aligned' are stated "
+    "in full (stays_in_range_full, alignment_preserved_full) and REFUTED by Lean-proved witnesses (open findings); execution "
+    "equivalence of whole programs is not proved, only searched with the Spec.RV32 interpreter.")
+LEVEL_NOTE = (
+    "trusted: Lean kernel; axioms propext/Classical.choice/Quot.sound; hand model <-> linker.py/rvc_relocations.py correspondence is a "
+    "differential run (pre-relaxation object of the REAL linker fed to the model: relax, finish, plain compared field by field with "
+    "the real post-relaxation object, the real relaxed link and the real unrelaxed link) on a corpus + generated rvc programs, not a "
+    "proof; relocation table regenerated from the live ISA and proved equal to the model's (table_matches); Spec.RV32 decoder/"
+    "interpreter (validated against llvm-mc by C08); C10/C11 relocation models and proofs (Proofs.Reloc, Proofs.RelocRv2)")
+TECHNIQUE = ("Lean 4 proofs by induction over a hand model (hole lists, sections, images) + regenerated relocation table + differential "
+             "correspondence with the real linker; the property itself is evaluated on real relaxed/unrelaxed link pairs with the Lean "
+             "decoders and the Lean RV32 interpreter as oracles")
+RULE = ("corpus of 27 fixed links (C.J edges +-2044..2052, hole accounting, multi-section/multi-image, DEFINESYMBOL, data references, "
+        "no layout, jal with other link registers, the open findings) + generated 'maze' programs (quick 40, thorough 400: 2-9 blocks "
+        "and 0-3 functions scattered over 1-3 objects and 1-3 code sections, gaps around the 2 KiB reach, relaxable and base jumps, "
+        "branches, calls, abs/pc-relative data references, 1-2 code memories incl. adjacent ones) + 2 C programs compiled by ppci for "
+        "riscv:rvc. evaluation = one (unrelaxed, relaxed) link pair / one decoded reference / one emulated run / one model request; "
+        "distinct non-trivial = distinct case with at least one hole")
+TRUSTED = [
+    "hand model Model.Relax / Model.RelaxLink of ppci/binutils/linker.py (do_relaxations, _apply_relaxation_holes, do_relocations) and "
+    "rvc_relocations.py (can_shrink, do_shrink), tied by the differential run on every check",
+    "Gen.RelaxTab regenerated from get_arch('riscv:rvc').isa.relocation_map (sizes, which types override can_shrink, the constant bits "
+    "do_shrink writes - probed on all-zero and all-one words - and the name of the relocation it returns)",
+    "Spec.RV32 (decoders and one-step semantics written from the ISA manual), Spec.RelocSem, Spec.Relax",
+    "the unrelaxed link is obtained by replacing Linker.do_relaxations with a no-op from outside (the linker has no switch)",
+    "objects are built with the riscv:rvc assembler plus the instruction classes CB/CBl emitted directly (the text assembler resolves "
+    "'j'/'jal' to the base ISA, only the code generator emits the relaxable forms)",
+]
+ASSUMPTIONS = [
+    "a section name occurs once in section_map and at most once in all images (hypothesis of the image theorems; C12 layout_placement)",
+    "shrinkable relocation sites of a section do not overlap (SitesSeparated; true for assembler/code generator output)",
+    "addresses, offsets and symbol values are non-negative (Nat in the model)",
+    "cbl_imm11 is only announced for jal ra, cb_imm11 for jal x0 (guaranteed by CB/CBl since commit f0b404d; the linker does not check)",
+]
 GEN = common.LEAN / "PpciVerif" / "Gen" / "RelaxTab.lean"
 
 
@@ -690,7 +734,8 @@ def build_c_case(k):
 
 # ---------------------------------------------------------------------------------------------
 
-def run_cases(ctx, cases):
+def run_cases(ctx, cases, extra=()):
+    """`extra`: further driver requests answered in the same driver run; their replies are returned"""
     built = []
     for case in cases:
         try:
@@ -746,7 +791,10 @@ def run_cases(ctx, cases):
                 segs = [(x[1], x[3]) for x in s["sections"] if x[3]]
                 plan.append((case, res, "run" + key, len(lines)))
                 lines.append(f"run {pc} {0x90000} 4000 {len(segs)} " + " ".join(f"{a} {d}" for a, d in segs))
+    nmine = len(lines)
+    lines += list(extra)
     replies = ctx.driver("C13", lines) if lines else []
+    extra_replies = replies[nmine:]
     runs = {}
     for case, res, op, i in plan:
         rep = replies[i]
@@ -786,13 +834,10 @@ def run_cases(ctx, cases):
                      f"relaxed: {tr[1]} after {tr[2]} steps, x10..x17={tr[4]}", case)
         else:
             ctx.sample({"case": name, "run": u})
-    return built
+    return extra_replies
 
 
 def check(ctx):
-    tab = ctx.driver("C13", ["table"])[0]
-    if tab != "ok 1":
-        ctx.disagree("table", "Gen.RelaxTab.table vs Model.Relax.rvcTable", str(getattr(ctx, "table", None)), tab)
     cases = corpus()
     n = 400 if ctx.thorough else 40
     for i in range(n):
@@ -800,11 +845,17 @@ def check(ctx):
     for k in range(len(C_SOURCES)):
         cases.append(dict(name=f"c-program-{k}", objs=[C_START], csrc=k, entry="start", run=True,
                           layout="MEMORY flash LOCATION=0x1000 SIZE=0x8000 { SECTION(code) }\nMEMORY ram LOCATION=0x20000 SIZE=0x1000 { SECTION(data) }"))
-    run_cases(ctx, cases)
-    spec_checks(ctx)
+    slines, sexp = spec_requests(ctx)
+    rep = run_cases(ctx, cases, ["table"] + slines)
+    if rep[0] != "ok 1":
+        ctx.disagree("table", "Gen.RelaxTab.table vs Model.Relax.rvcTable", str(getattr(ctx, "table", None)), rep[0])
+    for ln, e, r in zip(slines, sexp, rep[1:]):
+        ctx.count("eval_spec")
+        if e != r:
+            ctx.disagree("spec", ln[:200], e[:200], r[:200])
 
 
-def spec_checks(ctx):
+def spec_requests(ctx):
     """Spec.Relax (phi, removeBytes) against the independent Python formulation used above"""
     rng = ctx.rng
     lines, exp = [], []
@@ -827,10 +878,7 @@ def spec_checks(ctx):
             ",".join("1" if any(a < o < a + s for a, s in holes) else "0" for o in offs)))
         lines.append(f"remove {hx(data.hex())} {len(holes)} " + " ".join(f"{o} {s}" for o, s in holes))
         exp.append("ok " + hx(bytes(b for i, b in enumerate(data) if not in_hole(holes, i)).hex()))
-    for ln, e, r in zip(lines, exp, ctx.driver("C13", lines)):
-        ctx.count("eval_spec")
-        if e != r:
-            ctx.disagree("spec", ln[:200], e[:200], r[:200])
+    return lines, exp
 
 
 def replay(ctx, rp):
